@@ -256,6 +256,96 @@ def declsplit(db, worktree, files):
     return total
 
 
+def _mask(s):
+    """same-length copy of s with string/char literals and comments blanked (so brace matching is not confused)."""
+    out = list(s)
+    i, n = 0, len(s)
+    while i < n:
+        if s.startswith("/*", i):
+            e = s.find("*/", i + 2)
+            e = n if e < 0 else e + 2
+            for k in range(i, e):
+                if out[k] != "\n":
+                    out[k] = " "
+            i = e
+        elif s.startswith("//", i):
+            e = s.find("\n", i)
+            e = n if e < 0 else e
+            for k in range(i, e):
+                out[k] = " "
+            i = e
+        elif s[i] in "\"'":
+            q = s[i]
+            k = i + 1
+            while k < n and s[k] != q:
+                k += 2 if s[k] == "\\" else 1
+            for j in range(i + 1, min(k, n)):
+                if out[j] != "\n":
+                    out[j] = " "
+            i = k + 1
+        else:
+            i += 1
+    return "".join(out)
+
+
+def _match(m, i, open_, close_):
+    d = 0
+    while i < len(m):
+        if m[i] == open_:
+            d += 1
+        elif m[i] == close_:
+            d -= 1
+            if d == 0:
+                return i
+        i += 1
+    return -1
+
+
+def ifswap(db, worktree, files):
+    """if (c) { A } else { B }   ->   if (!(c)) { B } else { A }      (both branches must be braced blocks)"""
+    total = 0
+    for rel in files:
+        path = os.path.join(worktree, rel)
+        s = open(path).read()
+        m = _mask(s)
+        starts = [x.start() for x in re.finditer(r"\bif \(", m)]
+        for st in reversed(starts):
+            m = _mask(s)
+            po = m.index("(", st)
+            pc = _match(m, po, "(", ")")
+            if pc < 0:
+                continue
+            j = pc + 1
+            while j < len(m) and m[j] in " \t\n":
+                j += 1
+            if j >= len(m) or m[j] != "{":
+                continue
+            tc = _match(m, j, "{", "}")
+            if tc < 0:
+                continue
+            k = tc + 1
+            while k < len(m) and m[k] in " \t\n":
+                k += 1
+            if not m.startswith("else", k):
+                continue
+            e = k + 4
+            while e < len(m) and m[e] in " \t\n":
+                e += 1
+            if e >= len(m) or m[e] != "{":
+                continue        # else if ...
+            ec = _match(m, e, "{", "}")
+            if ec < 0:
+                continue
+            # an `else if` chain ABOVE us: if this `if` is itself preceded by `else`, swapping is still fine
+            cond, A, B = s[po + 1:pc], s[j:tc + 1], s[e:ec + 1]
+            if "#" in s[st:ec]:
+                continue        # preprocessor lines inside: leave alone
+            s = s[:po + 1] + "!(" + cond + ")" + s[pc:j] + B + s[tc + 1:e] + A + s[ec + 1:]
+            total += 1
+        open(path, "w").write(s)
+    return total
+
+
 def main():
     mode, worktree = sys.argv[1], os.path.abspath(sys.argv[2])
     files = sys.argv[3:]
@@ -263,7 +353,7 @@ def main():
     try:
         if not files:
             files = sorted({f.relfile for f in db.all_functions() if f.relfile.startswith("orc/") and f.relfile.endswith(".c")} | {"tools/orcc.c"})
-        n = {"rename": rename, "nulltest": nulltest, "condforms": condforms, "incforms": incforms, "declsplit": declsplit}[mode](db, worktree, files)
+        n = {"rename": rename, "nulltest": nulltest, "condforms": condforms, "incforms": incforms, "declsplit": declsplit, "ifswap": ifswap}[mode](db, worktree, files)
         print("%s: %d lines changed in %d files" % (mode, n, len(files)))
     finally:
         import shutil
